@@ -18,7 +18,7 @@ BUDGET = {'quick': 150, 'thorough': 1200}
 CHUNK = {'quick': 20, 'thorough': 100}
 REQUIRED = ['bounds_checked_against_history_since_last_empty', 'endurance_runs', 'long_history_totals_checked', 'dominant_candidate_removals', 'laws_extracted', 'candidates_law_checked', 'totals_checked', 'heaviest_changes', 'zero_weight_candidates_seen', 'real_selections_checked']
 PATTERNS = ['random', 'heaviest_churn', 'drain_refill', 'equal', 'replace_heavy', 'zero_mix', 'dominant']
-FAMILIES = ['dyadic', 'nondyadic', 'wide', 'equal', 'withzero', 'mixedint']
+FAMILIES = ['dyadic', 'nondyadic', 'wide', 'equal', 'withzero', 'mixedint', 'tiny']
 
 
 def gen_cases(tier, seed):
@@ -55,6 +55,8 @@ def _w(r, fam):
         return r.choice([1, 2, 3, 1, 0.25, 0.5, 1.7, 2.5])      # Python ints (contact counts, G.add_edge(u, v, w=1)) next to floats
     if fam == 'equal':
         return 1.7
+    if fam == 'tiny':
+        return r.choice([0.1, 0.2, 0.3, 0.7, 1.1, 2.3, 3.7]) * 1e-14      # the same weights in another unit: totals of order 1e-13 are totals, not residue
     return r.choice([0.0, 0.0, 0.5, 1.0, 1.9])
 
 
